@@ -65,7 +65,12 @@ def main():
     impl = vf.build_impl()
     model = vf.build_model("C14") if model_ok else None
 
-    cases = []   # (procs, schedule)
+    cases = []   # (procs, schedule[, number of records the file starts with])
+    for procs in ([0, 0], [0, 1]):
+        for s in interleavings([4, 4]):                         # the same on a file that does not hold a record yet (first append ever)
+            cases.append((procs, s, 0))
+    for s in ([0, 1, -13, 0, 1, 0, 1, 0, 1, 1, 1], [0, 0, 1, -13, 0, 1, 0, 1, 1, 1, 1], [1, 0, -13, 1, 0, 1, 0, 1, 0, 0, 0], [0, 0, 0, 1, -13, 0, 1, 1, 1, 1]):
+        cases.append(([0, 1], s))                               # a slow holder: the other process must keep waiting for the flock (1.3 s pause)
     for procs in ([0, 0], [0, 1]):
         for s in interleavings([4, 4]):                         # every interleaving of two appenders, in-process and cross-process
             cases.append((procs, s))
@@ -87,7 +92,8 @@ def main():
         s = [0] * 4 + [1] * 4 + [2] * 4 + [3] * 4
         rng.shuffle(s)
         cases.append((procs, s))
-    lines = ["1|%d %d|%s|%s" % (SZ, NINIT, " ".join(map(str, p)), " ".join(map(str, s))) for p, s in cases]
+    cases = [(cs[0], cs[1], cs[2] if len(cs) > 2 else NINIT) for cs in cases]
+    lines = ["1|%d %d|%s|%s" % (SZ, ni, " ".join(map(str, p)), " ".join(map(str, s))) for p, s, ni in cases]
     # run in parallel chunks: each case spawns its own worker processes
     import concurrent.futures
     chunks = [lines[i::8] for i in range(8)]
@@ -98,10 +104,10 @@ def main():
         for j, o in enumerate(ch):
             io[k + 8 * j] = o
     c.count(len(lines), "forced interleavings")
-    c.cov["exhaustive_parts"] = ["all 70 interleavings of 2 appenders at the 4 segments, in one process and across two processes, and all 35 interleavings with one appender whose write fails inside the critical section x 4 placements (%d executions)" % n2]
+    c.cov["exhaustive_parts"] = ["all 70 interleavings of 2 appenders at the 4 segments, in one process and across two processes, on a file holding one record and on an empty file; 4 slow-holder schedules (1.3 s pause while another process waits for the flock); all 35 interleavings with one appender whose write fails inside the critical section x 4 placements (%d executions)" % n2]
 
     mlines, midx, traces = [], [], 0
-    for k, ((procs, s), line, o) in enumerate(zip(cases, lines, io)):
+    for k, ((procs, s, NI), line, o) in enumerate(zip(cases, lines, io)):
         n = len(procs)
         p = parse(o)
         rep = {"cases": [line], "got": o}
@@ -109,7 +115,7 @@ def main():
             c.violation("append-hang", "appenders did not all return (status %s) for procs=%s schedule=%s" % (o.split()[0], procs, s), rep)
             continue
         ev, rs, fb = p
-        c.nontrivial(("trace", tuple(procs), tuple(ev)))
+        c.nontrivial(("trace", tuple(procs), NI, tuple(ev)))
         # ---- direct predicates on the implementation's own outputs
         succ = [(t, idx) for t, (code, idx) in enumerate(rs) if code == 1]
         if any(code == 0 for code, _ in rs):
@@ -120,20 +126,20 @@ def main():
         for t, idx in succ:
             recb = fb[(idx - 1) * SZ: idx * SZ]
             want = [t + 1] * SZ if t < n else [n + 1] * SZ
-            if idx <= NINIT or recb != want:
+            if idx <= NI or recb != want:
                 c.violation("append-torn-or-lost", "thread %d returned index %d but the record there is %s (procs=%s, events=%s)" % (t, idx, recb, procs, ev), rep)
-        if len(fb) != SZ * (NINIT + len(succ)):
-            c.violation("append-length", "file length %d != %d + %d*%d successes (results %s, events %s)" % (len(fb), SZ * NINIT, SZ, len(succ), rs, ev), rep)
+        if len(fb) != SZ * (NI + len(succ)):
+            c.violation("append-length", "file length %d != %d + %d*%d successes (results %s, events %s)" % (len(fb), SZ * NI, SZ, len(succ), rs, ev), rep)
         if rs[n][0] != 1:
             c.violation("append-late-fails", "an append issued after all others returned failed: %s (lock not released?) procs=%s events=%s" % (rs[n], procs, ev), rep)
-        if fb[:SZ * NINIT] != [200] * (SZ * NINIT):
-            c.violation("append-clobber", "earlier records were modified: %s" % fb[:SZ * NINIT], rep)
+        if fb[:SZ * NI] != [200] * (SZ * NI):
+            c.violation("append-clobber", "earlier records were modified: %s" % fb[:SZ * NI], rep)
         # ---- the observed trace must be a trace of the model with the same outcome
         sch = model_schedule(ev, n)
         for t, (code, idx) in enumerate(rs[:n]):
             if procs[t] >= 100 and code != 2:
                 c.violation("append-bad-payload-accepted", "an append whose payload cannot be serialised did not fail: %s" % (rs,), rep)
-        mlines.append("1|%d %d|%s|%s|%s" % (SZ, SZ // 2, " ".join(map(str, procs + [0])), " ".join(["200"] * (SZ * NINIT)), " ".join(map(str, sch))))
+        mlines.append("1|%d %d|%s|%s|%s" % (SZ, SZ // 2, " ".join(map(str, procs + [0])), " ".join(["200"] * (SZ * NI)), " ".join(map(str, sch))))
         midx.append(k)
     if model and mlines:
         mo = vf.run_model(model, mlines)
@@ -148,7 +154,7 @@ def main():
         if bad:
             c.broken.append({"kind": "correspondence", "where": "observed AppendRecord traces vs Model/C14 replay", "theorem": "trace validation (replay accepts the observed trace with the same results and file)",
                              "mismatches": len(bad), "examples": bad[:3], "log": ""})
-    c.sample({"procs": cases[75][0], "schedule": cases[75][1], "observed": io[75]})
+    c.sample({"procs": cases[150][0], "schedule": cases[150][1], "records_before": cases[150][2], "observed": io[150]})
     c.sample({"procs": cases[n2 + 1][0], "schedule": cases[n2 + 1][1], "observed": io[n2 + 1]})
 
     race_note = ""
